@@ -552,6 +552,9 @@ def endOf (w : RelRows) : EndId → Option End
 
 def classOfEnd (d : ClassDiagram) (w : RelRows) (e : EndId) : Option Class := (endOf w e).bind (fun en => findClass d en.cls)
 
+/-- attribute `i` of the class at end `e` -/
+def attrAt (d : ClassDiagram) (w : RelRows) (e : EndId) (i : Nat) : Option Attr := (classOfEnd d w e).bind (fun c => c.findAttr i)
+
 /-- OIR_ID: one R_OIR row per end row -/
 def oirId : EndId → Nat
   | .form => 0 | .aone => 1 | .aoth => 2 | .assr => 3 | .super => 4
@@ -615,9 +618,9 @@ def relHop (d : ClassDiagram) (w : RelRows) (x : RI) (h : Hop) : List RI :=
       else if h = hp "O_RTIDA" 111 then [.rtida g t r]
       else []
     | .rattr g _ r =>
-      if h = hp "O_ATTR" 106 then (((classOfEnd d w g).bind (fun c => c.findAttr r.rattr)).map RI.attr).toList else []
+      if h = hp "O_ATTR" 106 then ((attrAt d w g r.rattr).map RI.attr).toList else []
     | .oida _ t r =>
-      if h = hp "O_ATTR" 105 then (((classOfEnd d w t).bind (fun c => c.findAttr r.iattr)).map RI.attr).toList else []
+      if h = hp "O_ATTR" 105 then ((attrAt d w t r.iattr).map RI.attr).toList else []
     | _ => []
 
 def relAttr (numb : Nat) (w : RelRows) (x : RI) (f : String) : Val RI :=
@@ -731,7 +734,7 @@ theorem relStep (d : ClassDiagram) (numb : Nat) (w : RelRows) (callF : CallF RI)
       (L.set "o_ref" (.inst (some (RI.ref g t r)))) C =
     .ok (((((L.set "o_ref" (.inst (some (RI.ref g t r)))).set "o_attr" (.inst (some (RI.attr ra)))).set "l1" (.strs (a ++ [ra.name]))).set
         "o_attr" (.inst (some (RI.attr ia)))).set "l2" (.strs (b ++ [ia.name])), C, .next) := by
-  xshape [relHop, relAttr, hp, hrc, htc, hra, hia, h1, h2]
+  xshape [relHop, relAttr, hp, attrAt, hrc, htc, hra, hia, h1, h2]
 
 /-- the loop of `_get_related_attributes` over the O_REF rows of one (referring end, referred end) pair -/
 theorem relLoop (d : ClassDiagram) (numb : Nat) (w : RelRows) (callF : CallF RI) (fuel : Nat) (g t : EndId) (rc tc : Class)
